@@ -35,7 +35,8 @@ CLAIMED = {
                 "(partial): that under the property's premises the search LEARNS and queries the network's 8 closest nodes - the real "
                 "node searches worlds of 1..300 (thorough: ..1000) honest responders (uniform / clustered around target / around the "
                 "searcher) and the checker compares announce targets with the true 8 closest, checks they stored the contact, and "
-                "compares the stream with all answers as multisets; every run is replayed through the Coq lookup model.",
+                "compares the stream with all answers as multisets; every run is replayed through the Coq lookup model. "
+                "Second group (proofs/Heard_Facts.v, 20 theorems): c02_heard_becomes_candidate - every node named in an accepted answer becomes a candidate; c02_request_round / c02_iterate_round_queries_slots / c02_initial_picks - each round hands exactly one get_peers per picked node to the socket; c02_endgame_queries_all_unflagged - the end-game queries every candidate not yet queried; c02_flags_truthful - in every reachable state a candidate marked queried was queried; c02_all_heard_queried_at_endgame - when a search enters its end-game every node it has heard of has been queried or is queried in that very step (with C04: no search ends with an unqueried candidate heard of before its end-game); exception proved necessary by c02_dummy_handle_caveat: the dummy handle (id 0, 0.0.0.0:0) named by a responder.",
         "ref": "7/C02", "axioms": "none",
         "note_extra": "PARTIAL: convergence (c02_all_closest_queried) is checker-decided on explored networks. The standard library's binary search is modelled from its source (core::slice::binary_search_by, branch-free variant).",
     },
@@ -123,7 +124,8 @@ CLAIMED = {
                 "naming arbitrary nodes included) the node's table satisfies the C08 invariant: no own id, no router address, "
                 "placement, no duplicates. Tie: trace validation of the real handler in simulated runs with unsolicited queries and "
                 "responses (0/2/8/12-byte ids, forged prefixes, replays) and an audit of the real table operations (hook) and "
-                "contacts (API) around every injected datagram.",
+                "contacts (API) around every injected datagram. "
+                "Also: queries that merely claim the id of a known contact from another address, responses whose transaction id is a live id plus one byte; rule on the API: a contact is reported good only if a datagram (answer or query) came from its address in the last 15 min.",
         "ref": "7/C12", "axioms": "none",
         "note_extra": "Inside the property's wording: a response carrying a live search's or the refresh's 5-byte prefix with any 3-byte suffix from any source does admit its sender as good.",
     },
@@ -186,7 +188,8 @@ CLAIMED = {
                 "beyond 2^64, integer limits, nesting to 1500, truncation at every offset, type swaps, struct-as-list desync, non-UTF-8) "
                 "is decoded by the real crate in a supervised child process (2 MiB stack, allocation meter, rlimit, panic hook) and "
                 "compared with the model. The running-node clause (a node keeps serving after any datagram sequence) is exercised by "
-                "the node runs of C05/C12 (no PANIC line, API calls answered), not proved.",
+                "the node runs of C05/C12 (no PANIC line, API calls answered), not proved. "
+                "Running-node clause: the malformed stream is injected into a real serving node (also with every datagram duplicated back to back, including the answers to its own bootstrap queries); no panic, pings and API answered after every batch; handled events replayed through the Coq model.",
         "ref": "7/C14", "axioms": "none", "category": "proof",
         "note_extra": "Partial by nature: that the real allocator/stack survive is observed, the theorem bounds what is requested. std/serde/tokio are modelled, not verified.",
     },
@@ -216,7 +219,8 @@ CLAIMED = {
                 "the target than the local id come first. Reply lists (handler part): c09_reply_distinct - the nodes/nodes6 lists of a "
                 "find_node/get_peers reply hold pairwise distinct contacts, each a live table entry, never the node's own id; "
                 "c09_reply_count - exactly min(8, live nodes of the family) of them; c09_nearest_bucket_first - the enumeration begins with "
-                "the live nodes of the bucket the target falls into.",
+                "the live nodes of the bucket the target falls into. "
+                "Handler part on the real node: tables of 9..40 live contacts; a find_node and a get_peers for the same key handled back to back must list the same nodes; at most 8 distinct contacts, never the node itself; events replayed through the Coq model (exact lists and order).",
         "ref": "7/C09", "axioms": "none", "note_extra": "",
     },
     "C10": {
@@ -227,7 +231,8 @@ CLAIMED = {
                 "by find_node_mut) for as long as it neither answers nor is named again. Tie: 15 min / 2 from the source; differential "
                 "runs of the real RoutingTable (statuses in dumps/contacts) and c10_ok recomputing the clauses from the event history "
                 "alone. KNOWN FINDING F-C10 (listed in known_findings.json, witnessed by c10_renamed_after_bad_refuted and reproduced "
-                "on the real table every run): a hearsay mention re-admits a contact that went bad before it answers again.",
+                "on the real table every run): a hearsay mention re-admits a contact that went bad before it answers again. "
+                "Per-contact histories (1-3 contacts, 30-90 events each) exercise the unanswered-query counter and its resets.",
         "ref": "7/C10", "axioms": "none", "note_extra": "",
     },
     "C06": {
@@ -240,7 +245,8 @@ CLAIMED = {
                 "src/token.rs (theorems state 10/30 min, so drift breaks the proofs); the real TokenStore is run under the virtual clock "
                 "on boundary-biased scripts and compared with the model (accept/refuse sequence + token equality pattern); an executable "
                 "checker of the four clauses (c06_ok) is evaluated in Coq on the real accept flags; failing scripts are shrunk. The "
-                "handler clause (storing gated on the check, source IP passed) is covered by the handler model of C05.",
+                "handler clause (storing gated on the check, source IP passed) is covered by the handler model of C05. "
+                "Handler part: server scenarios on the real node with right / foreign / altered / wrong-length / stale tokens; servercheck decides from the datagrams alone that announces are accepted only with a token issued to that IP at most 30 min earlier and never refused within 10 min, and that nothing refused is stored; events replayed through the Coq model.",
         "ref": "7/C06", "axioms": "none",
         "note_extra": "Assumptions A-SHA (SHA-1 injective on ip||secret: tokens are symbolic terms), A-RNG (fresh secrets), A-TIME.",
     },
@@ -254,7 +260,8 @@ CLAIMED = {
                 "are stated with the property's numbers, so drift breaks the proof); the real AnnounceStorage is run under the virtual "
                 "clock on boundary-biased scripts (24 h +-1 ns, 498..502 pairs) and compared reply by reply with the model in Coq; an "
                 "executable checker of the spec (c07_ok) is evaluated on the real replies and failing scripts are shrunk. The handler "
-                "part of C07 (contact address from port/implied port, family filter) is covered by the handler model of C05.",
+                "part of C07 (contact address from port/implied port, family filter) is covered by the handler model of C05. "
+                "Handler part: on the real serving node the values of every get_peers reply are exactly the live (< 24 h) acknowledged same-family contacts unless cut at the datagram cap (servercheck on the datagrams; up to 210 announcers per info-hash); events replayed through the Coq model.",
         "ref": "7/C07", "axioms": "none",
         "note_extra": "Assumption A-TIME (one clock reading per operation, monotone clock). The per-hash HashMap vectors are represented by one insertion-ordered list.",
     },
@@ -266,7 +273,8 @@ CLAIMED = {
                 "is injective and action_id() recovers the prefix. Block length/modulus come from the source via the constants "
                 "translator (B | M is a proof obligation). Tie: the real generators (production block size) are drawn 2^24+3*2048 "
                 "times; every block start is compared with the model's closed form and selected blocks are replayed through the "
-                "model with the observed order as oracle; the property's observable clauses are also evaluated on the real ids.",
+                "model with the observed order as oracle; the property's observable clauses are also evaluated on the real ids. "
+                "Also: TransactionID::from_bytes on every length 0..16 (accepted iff 8 bytes); node part: over simulated runs with repeated re-bootstrap attempts and searches, no (transaction id, destination) pair is ever sent twice.",
         "ref": "7/C19", "axioms": "none",
         "note_extra": "Assumption A-RNG (shuffle permutes). The bootstrap first-round id sharing clause is covered by C15's check, not here.",
     },
